@@ -56,6 +56,9 @@ def scenario(rng, k):
         steps.append(G.run_step(rng, 150 + 10 * len(steps), target=rng.choice(["//:all", "//:a", "//pk:b", "//:d"]),
                                 again=True, p_fail=0.2))
     steps.append({"cmd": "plant", "entries": odd_plants(rng)})
+    if rng.random() < 0.3:
+        # the sources moved on: a task with recorded versions is not an experiment (not archivable) any more
+        steps.append({"cmd": "retype", "task": rng.choice(["//:a", "//pk:b", "//pk/sub:c", "//:d"]), "kind": "run_command"})
     task = rng.choice(TARGETS)
     latest = rng.random() < 0.5
     if foreign and rng.random() < 0.6:
